@@ -5,6 +5,8 @@ from contracts import spec_sd as SS
 from contracts import c10 as C10
 
 FUNCTIONS = [
+    "someip.sd.ServiceAnnouncer.queue_send",
+    "someip.sd.SendCollector.*",
     "someip.sd.ServiceAnnouncer.handle_findservice",
     "someip.sd.ServiceInstance.matches_find",
     "someip.sd.ServiceInstance._send_offer",
@@ -19,5 +21,5 @@ ASSUMPTIONS = [
 ]
 BOUNDED = []
 EXPLANATION = "request ids/versions incl. every wildcard combination, channel, delay window, instance descriptions and readiness are symbolic; one to three instances are enumerated (the property's own quantifier)"
-HARNESSES = [SCFG.ob_matches_find_refines, SCFG.ob_create_offer_entry_refines] + SA.FIND_OBLIGATIONS + [SS.ob_sd_message_dispatch, C10.ob_instance_start_stop, C10.ob_offer_task]
+HARNESSES = [SCFG.ob_matches_find_refines, SCFG.ob_create_offer_entry_refines] + SA.FIND_OBLIGATIONS + [SS.ob_sd_message_dispatch, C10.ob_instance_start_stop, C10.ob_offer_task] + SA.SEND_QUEUE_OBLIGATIONS
 EXPECT_COVERS = {"ob_handle_findservice": ["multicast", "unicast", "both", "nobody"], "ob_sd_message_dispatch": ["find"]}
